@@ -97,6 +97,10 @@ func c07Deviations() []envDev {
 	add("crit-without-authentic-signing-time", "crit", "reject", "", "sa", func(s *envSpec) { s.critRemove(envenc.HdrAuthTime) })
 	add("crit-with-phantom-label", "crit", "reject", "", "", func(s *envSpec) { s.crit = append(s.crit, "io.example.absent") })
 	add("cose-crit-with-phantom-int-label", "crit", "reject", "cose", "", func(s *envSpec) { s.crit = append(s.crit, int64(77)) })
+	// conditional specification labels named in crit although their header is absent ("every critical label actually present")
+	add("crit-names-absent-expiry", "crit+dup", "reject", "", "noexpiry", func(s *envSpec) { s.crit = append(s.crit, envenc.HdrExpiry) })
+	add("crit-names-absent-authentic-signing-time", "crit+othertime+dup", "reject", "", "x509", func(s *envSpec) { s.crit = append(s.crit, envenc.HdrAuthTime) })
+	add("crit-names-absent-signing-time", "crit+othertime+dup", "reject", "", "sa", func(s *envSpec) { s.crit = append(s.crit, envenc.HdrSigningTime) })
 	add("crit-names-signing-time-under-x509", "crit", "recorded", "", "x509", func(s *envSpec) { s.crit = append(s.crit, envenc.HdrSigningTime) })
 	add("crit-names-cty", "crit", "recorded", "", "", func(s *envSpec) {
 		if s.media == envenc.MediaJWS {
@@ -235,7 +239,42 @@ func c07Deviations() []envDev {
 	})
 	add("jws-letter-case-variant-of-header", "dup", "recorded", "jws", "", func(s *envSpec) {
 		s.jws = append(s.jws, envenc.Member{Name: "CTY", Raw: `"upper/cty"`})
+		s.strictValues = true
 	})
+	// letter-case twins of every specification header, carrying another value and placed after the exact member: header names are
+	// case-sensitive, so whether such an envelope is accepted is recorded only — but if it is, the returned values must be those of
+	// the exactly-named headers (a faithful decoding of the signed bytes)
+	twin := func(name, variant string, value func(s *envSpec) string, needs string) {
+		add("jws-case-twin-"+variant, "dup", "recorded", "jws", needs, func(s *envSpec) {
+			nm := variant
+			if i := strings.Index(nm, "("); i >= 0 {
+				nm = nm[:i]
+			}
+			s.jws = append(s.jws, envenc.Member{Name: nm, Raw: value(s)})
+			s.strictValues = true
+		})
+	}
+	tstr := func(d time.Duration) func(s *envSpec) string {
+		return func(s *envSpec) string { return `"` + s.cont.SigningTime.Add(d).UTC().Format(time.RFC3339) + `"` }
+	}
+	twin("cty", "Cty", func(*envSpec) string { return `"text/other"` }, "")
+	twin("crit", "CRIT", func(*envSpec) string { return `["io.cncf.notary.signingScheme"]` }, "")
+	twin(envenc.HdrScheme, "io.cncf.notary.SigningScheme", func(s *envSpec) string {
+		if s.cont.Scheme == envenc.SchemeX509 {
+			return `"` + envenc.SchemeSA + `"`
+		}
+		return `"` + envenc.SchemeX509 + `"`
+	}, "")
+	twin(envenc.HdrScheme, "IO.CNCF.NOTARY.SIGNINGSCHEME", func(s *envSpec) string { return `"` + s.cont.Scheme + `"` }, "")
+	twin(envenc.HdrSigningTime, "io.cncf.notary.SigningTime", tstr(-99*time.Hour), "x509")
+	twin(envenc.HdrSigningTime, "io.cncf.notary.signingtime", tstr(-98*time.Hour), "x509")
+	twin(envenc.HdrAuthTime, "io.cncf.notary.AuthenticSigningTime", tstr(-97*time.Hour), "sa")
+	twin(envenc.HdrAuthTime, "io.cncf.notary.authenticsigningtime", tstr(-96*time.Hour), "sa")
+	twin(envenc.HdrExpiry, "io.cncf.notary.Expiry", tstr(9999*time.Hour), "expiry")
+	twin(envenc.HdrExpiry, "io.cncf.notary.EXPIRY", tstr(9998*time.Hour), "expiry")
+	// a twin that would *supply* a header the exact set lacks
+	twin(envenc.HdrExpiry, "io.cncf.notary.Expiry(no exact expiry)", tstr(9997*time.Hour), "noexpiry")
+	twin(envenc.HdrAuthTime, "io.cncf.notary.AuthenticSigningTime(under x509)", tstr(-95*time.Hour), "x509")
 	add("cose-duplicate-protected-label", "dup", "recorded", "cose", "", func(s *envSpec) {
 		s.cose = append(s.cose, envenc.CMember{Label: envenc.CInt(3), Value: envenc.CText("second/cty")})
 	})
@@ -274,6 +313,8 @@ func (b c07Base) applicable(d envDev) bool {
 	switch d.needs {
 	case "expiry":
 		return b.expiry
+	case "noexpiry":
+		return !b.expiry
 	case "sa":
 		return b.scheme == envenc.SchemeSA
 	case "x509":
@@ -330,7 +371,13 @@ func c07Body(c *mc.Ctx, b c07Base, keyName string) {
 		// later deviations come from later positions of the list and from other slots (no repeated pairs, no cancellation)
 		var cand []envDev
 		for _, d := range rest {
-			if !usedSlot[d.slot] {
+			free := true
+			for _, sl := range strings.Split(d.slot, "+") {
+				if usedSlot[sl] {
+					free = false
+				}
+			}
+			if free {
 				cand = append(cand, d)
 			}
 		}
@@ -343,7 +390,9 @@ func c07Body(c *mc.Ctx, b c07Base, keyName string) {
 		}
 		d := cand[k-1]
 		applied = append(applied, d)
-		usedSlot[d.slot] = true
+		for _, sl := range strings.Split(d.slot, "+") {
+			usedSlot[sl] = true
+		}
 		// restrict to deviations after d in list order
 		for i := range rest {
 			if rest[i].name == d.name {
@@ -431,6 +480,19 @@ func c07Body(c *mc.Ctx, b c07Base, keyName string) {
 		}
 		if !sa.Expiry.IsZero() && !sa.Expiry.After(sa.SigningTime) {
 			probs = append(probs, "expiry not later than signing time")
+		}
+		if spec.strictValues && !mustReject {
+			// compare with the exactly-named headers (extended attributes are not compared: the twin itself is one)
+			want := spec.cont
+			if got.Payload.ContentType != want.ContentType {
+				probs = append(probs, fmt.Sprintf("content type %q is not the value of the exactly-named header (%q)", got.Payload.ContentType, want.ContentType))
+			}
+			if string(sa.SigningScheme) != want.Scheme {
+				probs = append(probs, fmt.Sprintf("signing scheme %q is not the value of the exactly-named header (%q)", sa.SigningScheme, want.Scheme))
+			}
+			if !sa.Expiry.Equal(spec.expectExpiry) && !(sa.Expiry.IsZero() && spec.expectExpiry.IsZero()) {
+				probs = append(probs, fmt.Sprintf("expiry %v is not the value of the exactly-named header (%v)", sa.Expiry, spec.expectExpiry))
+			}
 		}
 		if len(got.SignerInfo.CertificateChain) == 0 {
 			probs = append(probs, "no certificate chain")
